@@ -2,11 +2,28 @@
    ExtrOcamlBasic only: bool, option, list, prod, unit, sumbool, sumor map to
    OCaml's; N, Z, positive, nat stay the extracted inductives. *)
 Require Import ExtrOcamlBasic.
-From BMC Require Import Base Prim.
+From BMC Require Import Base Prim Layers Layers2 Hmac Aes Dispatch.
 Extraction Language OCaml.
 Extraction "model.ml"
   Impl.bcd_decode Impl.ones Impl.twos Impl.analog_parser Impl.checksum
   Impl.decode_bcd_plus Impl.decode_packed6 Impl.decode_latin1 Impl.string_decoder
   Impl.rolling_duration Impl.rolling_byte Impl.is_system_relative Impl.is_device_relative
   Spec.bcd Spec.ones Spec.twos Spec.interpret Spec.pack_nibbles Spec.pack6
-  Spec.bcd_plus_rune Spec.rolling_duration Spec.rolling_byte.
+  Spec.bcd_plus_rune Spec.rolling_duration Spec.rolling_byte
+  cbc_encrypt cbc_decrypt run_decode aes_dec aes_enc integrity_sign hmac_alg auth_params
+  decode_rmcp rmcp_zero show_rmcp decode_selector selector_zero show_selector
+  decode_v1session v1session_zero show_v1session decode_message message_zero show_message
+  decode_opensessionrsp opensessionrsp_zero show_opensessionrsp
+  decode_rakp1 rakp1_zero show_rakp1 decode_rakp2 rakp2_zero show_rakp2 decode_rakp4 rakp4_zero show_rakp4
+  decode_deviceid deviceid_zero show_deviceid decode_chassis chassis_zero show_chassis
+  decode_authcaps authcaps_zero show_authcaps decode_ciphersuites ciphersuites_zero show_ciphersuites
+  decode_sessioninfo sessioninfo_zero show_sessioninfo decode_setpriv setpriv_zero show_setpriv
+  decode_guid guid_zero show_guid decode_reserve reserve_zero show_reserve
+  decode_getsdrrsp getsdrrsp_zero show_getsdrrsp decode_sdrhdr sdrhdr_zero show_sdrhdr
+  decode_sdrrepoinfo sdrrepoinfo_zero show_sdrrepoinfo decode_sensorreading sensorreading_zero show_sensorreading
+  decode_fsr fsr_zero show_fsr
+  decode_v2session v2session_zero show_v2session decode_aescbc aescbc_zero show_aescbc
+  decode_dcmicaps dcmicaps_zero show_dcmicaps decode_dcmimand dcmimand_zero show_dcmimand
+  decode_dcmiopt dcmiopt_zero show_dcmiopt decode_dcmimgmt dcmimgmt_zero show_dcmimgmt
+  decode_dcmipower dcmipower_zero show_dcmipower decode_powerreading powerreading_zero show_powerreading
+  decode_dcmisensor dcmisensor_zero show_dcmisensor.
